@@ -659,6 +659,15 @@ class Evaluator:
                         self.effects.append((fn.attr,) + tuple(freeze(a) for a in args))
                     v = rv[fn.attr + "()"]
                     return v(rv) if callable(v) else v
+                if type(rv) is list and fn.attr in ("append", "extend", "insert", "remove", "clear") and not kws:
+                    try:
+                        getattr(rv, fn.attr)(*args)
+                    except ValueError:
+                        raise Raised("ValueError")
+                    return None
+                if type(rv) is set and fn.attr in ("add", "discard") and len(args) == 1:
+                    getattr(rv, fn.attr)(args[0])
+                    return None
             if recv_name in env and type(env[recv_name]) is list and fn.attr in ("append", "insert", "extend"):
                 if fn.attr == "append":
                     env[recv_name].append(args[0])
@@ -703,6 +712,14 @@ class Evaluator:
                 base = None
             if isinstance(base, str):
                 return getattr(base, fn.attr)(*args)      # builtin string operation on constants
+        if isinstance(fn, ast.Attribute) and fn.attr in ("sub", "split", "findall") and args and all(isinstance(a, (str, int)) for a in args) and not kws:
+            try:
+                rx = self.expr(fn.value, env, f, depth)
+            except AnalysisError:
+                rx = None
+            if isinstance(rx, tuple) and len(rx) == 2 and rx[0] == "re" and isinstance(rx[1], str):
+                import re as _re
+                return getattr(_re.compile(rx[1]), fn.attr)(*args)
         if isinstance(fn, ast.Attribute) and fn.attr in ("search", "match", "fullmatch") and args and isinstance(args[0], str) \
                 and all(type(a) is int for a in args[1:]):
             rx = self.expr(fn.value, env, f, depth)
